@@ -4,6 +4,8 @@ CFG = dict(
     imports=["From Coq Require String.", "Import String.StringSyntax.", "From Verif.C37 Require Import Model Spec."],
     checker="check_case",
     shard=30,
+    search_rounds=1,
+    search_n=400,
     n=dict(quick=160, thorough=8000),
     rule="clusters of 8-40 identities per case run through the real name builders (GetLengthLimitedID directly with "
          "arbitrary prefix/limit, PolicyID.ID, Policy/Profile/EndpointChainName, PolicyGroup.ChainName, MakeUniqueID, "
